@@ -302,7 +302,111 @@ func genLine(r *core.Rand) string {
 	return fmt.Sprintf("rt-stream %s %s %s %s %s", ty, hx(secret), src, genReader(r, 16+len(pt), 0), hx(pt))
 }
 
+// ---------- history stream: one secret / AD / plaintext buffer, mutated in place between calls
+
+// genHist: 3..8 calls whose secret, additional data and plaintext/message live in the same
+// harness-owned backing arrays (impl, header `hist`).  Between consecutive calls the secret
+// mostly changes to ANOTHER secret of the SAME length.  Decryptions are of messages the
+// reference made under the current secret (must succeed) or under the previous one (must fail
+// or give the reference's answer).  Each call is a pure function of its current arguments and
+// the salt — that is what the model computes and what the sequence checks of the code.
+func genHist(r *core.Rand, tier string) core.Case {
+	lines := []string{"@ C09 hist"}
+	secret := r.Bytes(r.Range(1, 40))
+	prev := append([]byte{}, secret...)
+	n := r.Range(3, 8)
+	for i := 0; i < n; i++ {
+		if i > 0 {
+			prev = append([]byte{}, secret...)
+			switch r.Pick(35, 35, 15, 15) {
+			case 0:
+				secret = append([]byte{}, secret...)
+				secret[r.Intn(len(secret))] ^= 1 << r.Intn(8)
+			case 1:
+				secret = r.Bytes(len(secret))
+			case 2:
+				secret = r.Bytes(r.Range(1, 40))
+			}
+		}
+		decSecret := secret
+		if r.Chance(30) {
+			decSecret = prev
+		}
+		ty := []string{"bb", "sb", "bs", "bb"}[r.Intn(4)] // mostly []byte secrets: they are passed by reference
+		salt, pt, ad := r.Bytes(8), r.Bytes(genLen(r)), genAD(r)
+		if len(ad) > 200 {
+			ad = ad[:200]
+		}
+		switch r.Pick(18, 18, 18, 18, 14, 14) {
+		case 0:
+			lines = append(lines, fmt.Sprintf("enc-cbc %s %s %s %s", ty, hx(salt), hx(secret), hx(pt)))
+		case 1:
+			lines = append(lines, fmt.Sprintf("dec-cbc %s %s %s", ty, hx(secret), hx([]byte(base64.StdEncoding.EncodeToString(refCBCEnvelope(salt, decSecret, pt))))))
+		case 2:
+			lines = append(lines, fmt.Sprintf("enc-gcm %s %s %s %s %s", ty, hx(salt), hx(secret), hx(ad), hx(pt)))
+		case 3:
+			lines = append(lines, fmt.Sprintf("dec-gcm %s %s %s %s", ty, hx(secret), hx(ad), hx([]byte(hex.EncodeToString(refGCMEnvelope(salt, decSecret, ad, pt))))))
+		case 4:
+			lines = append(lines, fmt.Sprintf("enc-stream %s %s %s %s - %s", ty, hx(salt), hx(secret), []string{"w", "g:-:1:0", "g:1,1,1:0:0"}[r.Intn(3)], hx(pt)))
+		case 5:
+			lines = append(lines, fmt.Sprintf("dec-stream %s %s %s - %s", ty, hx(secret), []string{"b", "g:-:1:0", "g:1,1,1,1,1,1,1,1,1,1,1,1,1,1,1,1,1:0:0"}[r.Intn(3)], hx(refStream(salt, decSecret, pt))))
+		}
+	}
+	return core.Case{Lines: lines, Tag: "history"}
+}
+
+// ---------- magnitude stream: every length in a window
+
+// block boundaries up to 208: 16k-1, 16k, 16k+1
+func boundaryLen(r *core.Rand) int {
+	n := 16*r.Range(0, 13) + r.Range(-1, 1)
+	if n < 0 {
+		n = 0
+	}
+	return n
+}
+
+// genMagnitude: secret lengths 0..200 uniformly (sometimes 1000), AD lengths 0..100, plaintext
+// lengths at every block boundary up to 208 — 1-2 calls per case.
+func genMagnitude(r *core.Rand, tier string) core.Case {
+	lines := []string{"@ C09 x"}
+	n := r.Range(1, 2)
+	for i := 0; i < n; i++ {
+		secret := r.Bytes(r.Range(0, 200))
+		if r.Chance(3) {
+			secret = r.Bytes([]int{255, 256, 257, 1000, 1024}[r.Intn(5)])
+		}
+		ad := r.Bytes(r.Range(0, 100))
+		pt := r.Bytes(boundaryLen(r))
+		salt := r.Bytes(8)
+		ty := genTy(r)
+		switch r.Pick(20, 20, 15, 15, 10, 10, 10) {
+		case 0:
+			lines = append(lines, fmt.Sprintf("enc-cbc %s %s %s %s", ty, hx(salt), hx(secret), hx(pt)))
+		case 1:
+			lines = append(lines, fmt.Sprintf("enc-gcm %s %s %s %s %s", ty, hx(salt), hx(secret), hx(ad), hx(pt)))
+		case 2:
+			lines = append(lines, fmt.Sprintf("dec-cbc %s %s %s", ty, hx(secret), hx([]byte(base64.StdEncoding.EncodeToString(refCBCEnvelope(salt, secret, pt))))))
+		case 3:
+			lines = append(lines, fmt.Sprintf("dec-gcm %s %s %s %s", ty, hx(secret), hx(ad), hx([]byte(hex.EncodeToString(refGCMEnvelope(salt, secret, ad, pt))))))
+		case 4:
+			lines = append(lines, fmt.Sprintf("enc-stream %s %s %s %s - %s", ty, hx(salt), hx(secret), genReader(r, len(pt), 0), hx(pt)))
+		case 5:
+			lines = append(lines, fmt.Sprintf("dec-stream %s %s %s - %s", ty, hx(secret), genReader(r, 16+len(pt), 0), hx(refStream(salt, secret, pt))))
+		case 6:
+			lines = append(lines, fmt.Sprintf("raw-dec-gcm %d %s %s %s %s", r.Intn(2), ty, hx(secret), hx(ad), hx(refGCMEnvelope(salt, secret, ad, pt))))
+		}
+	}
+	return core.Case{Lines: lines, Tag: "magnitude"}
+}
+
 func gen(r *core.Rand, tier string) core.Case {
+	switch {
+	case r.Chance(10):
+		return genHist(r, tier)
+	case r.Chance(12) || (tier == "thorough" && r.Chance(15)):
+		return genMagnitude(r, tier)
+	}
 	lines := []string{"@ C09 x"}
 	n := r.Range(1, 3)
 	for i := 0; i < n; i++ {
@@ -408,6 +512,89 @@ func corpus() []core.Case {
 		fmt.Sprintf("dec-stream bb %s g:16,2:0:0 0 %s", hx(secret), hx(st)),
 		fmt.Sprintf("dec-stream bb %s g:16,2:0:0 1 %s", hx(secret), hx(st)))
 	add(ls...)
+	// MAGNITUDES, enumerated: EVERY secret length 0..200 (the key derivation assembles
+	// prevSum‖secret‖salt in a buffer: any scratch-space threshold lies in this window), a few
+	// long ones; EVERY additional-data length 0..100; plaintext lengths at every block boundary
+	// up to 208 — through encrypting and decrypting entry points, all four instantiations.
+	tys := []string{"ss", "sb", "bs", "bb"}
+	ls = nil
+	for n := 0; n <= 200; n++ {
+		sec := seqBytes(n, byte(n))
+		ty := tys[n%4]
+		p := seqBytes(n%7, 0x61)
+		switch n % 5 {
+		case 0:
+			ls = append(ls, fmt.Sprintf("enc-cbc %s %s %s %s", ty, hx(salt), hx(sec), hx(p)))
+		case 1:
+			ls = append(ls, fmt.Sprintf("enc-gcm %s %s %s - %s", ty, hx(salt), hx(sec), hx(p)))
+		case 2:
+			ls = append(ls, fmt.Sprintf("dec-cbc %s %s %s", ty, hx(sec), hx([]byte(base64.StdEncoding.EncodeToString(refCBCEnvelope(salt, sec, p))))))
+		case 3:
+			ls = append(ls, fmt.Sprintf("enc-stream %s %s %s w - %s", ty, hx(salt), hx(sec), hx(p)))
+		case 4:
+			ls = append(ls, fmt.Sprintf("dec-gcm %s %s - %s", ty, hx(sec), hx([]byte(hex.EncodeToString(refGCMEnvelope(salt, sec, nil, p))))))
+		}
+		// and the raw CBC pair for every length (cheap, one block)
+		ls = append(ls, fmt.Sprintf("raw-enc-cbc %s %s %s -", tys[(n+1)%4], hx(salt), hx(sec)))
+		if len(ls) >= 80 {
+			add(ls...)
+			ls = nil
+		}
+	}
+	for _, n := range []int{255, 256, 257, 1000, 4096} {
+		ls = append(ls, fmt.Sprintf("enc-cbc bb %s %s 00", hx(salt), hx(seqBytes(n, 3))))
+	}
+	add(ls...)
+	ls = nil
+	for n := 0; n <= 100; n++ {
+		a := seqBytes(n, 0x80)
+		if n%2 == 0 {
+			ls = append(ls, fmt.Sprintf("enc-gcm %s %s %s %s %s", tys[n%4], hx(salt), hx(secret), hx(a), hx(seqBytes(n%18, 1))))
+		} else {
+			ls = append(ls, fmt.Sprintf("dec-gcm %s %s %s %s", tys[n%4], hx(secret), hx(a), hx([]byte(hex.EncodeToString(refGCMEnvelope(salt, secret, a, seqBytes(n%18, 1)))))))
+		}
+	}
+	add(ls...)
+	ls = nil
+	for k := 0; k <= 13; k++ {
+		for _, d := range []int{-1, 0, 1} {
+			n := 16*k + d
+			if n < 0 {
+				continue
+			}
+			p := seqBytes(n, 0x20)
+			ty := tys[(k+d+1)%4]
+			ls = append(ls, fmt.Sprintf("enc-cbc %s %s %s %s", ty, hx(salt), hx(secret), hx(p)),
+				fmt.Sprintf("enc-gcm %s %s %s 6164 %s", ty, hx(salt), hx(secret), hx(p)),
+				fmt.Sprintf("dec-cbc %s %s %s", ty, hx(secret), hx([]byte(base64.StdEncoding.EncodeToString(refCBCEnvelope(salt, secret, p))))),
+				fmt.Sprintf("raw-dec-gcm %d %s %s 6164 %s", k%2, ty, hx(secret), hx(refGCMEnvelope(salt, secret, []byte("ad"), p))))
+		}
+	}
+	add(ls...)
+	// histories, enumerated: the secret buffer overwritten in place by a same-length secret
+	// between two calls, for every pair of entry points
+	s1, s2 := []byte("secret-number-one"), []byte("secret-number-two")
+	mk := func(op string, sec, decSec []byte) string {
+		switch op {
+		case "enc-cbc":
+			return fmt.Sprintf("enc-cbc bb %s %s %s", hx(salt), hx(sec), hx(pt))
+		case "dec-cbc":
+			return fmt.Sprintf("dec-cbc bb %s %s", hx(sec), hx([]byte(base64.StdEncoding.EncodeToString(refCBCEnvelope(salt, decSec, pt)))))
+		case "enc-gcm":
+			return fmt.Sprintf("enc-gcm bb %s %s 6164 %s", hx(salt), hx(sec), hx(pt))
+		case "dec-gcm":
+			return fmt.Sprintf("dec-gcm bb %s 6164 %s", hx(sec), hx([]byte(hex.EncodeToString(refGCMEnvelope(salt, decSec, []byte("ad"), pt)))))
+		case "enc-stream":
+			return fmt.Sprintf("enc-stream bb %s %s w - %s", hx(salt), hx(sec), hx(pt))
+		}
+		return fmt.Sprintf("dec-stream bb %s b - %s", hx(sec), hx(refStream(salt, decSec, pt)))
+	}
+	ops := []string{"enc-cbc", "dec-cbc", "enc-gcm", "dec-gcm", "enc-stream", "dec-stream"}
+	for _, a := range ops {
+		for _, b := range ops {
+			cs = append(cs, core.Case{Lines: []string{"@ C09 hist", mk(a, s1, s1), mk(b, s2, s2), mk(b, s2, s1)}, Tag: "history"})
+		}
+	}
 	// OpenSSL: `printf 'hello' | openssl enc -aes-256-cbc -md md5 -a -pass pass:whaterror -S a1a2a3a4a5a6a7a8`
 	// produces this message (salt a1..a8): checked against the reference derivation at start-up
 	return cs
